@@ -539,9 +539,9 @@ LEVEL_TEXT = ('Lean theorems over the reader/construct model of parse (v2 and v3
               'e2e_traces_prefix, e2e_count_prefix, e2e_dump_is_parse (the composition\'s container step is parse); '
               'seekUntil_fuel_hang_old (pre-fix loop never terminates at EOF); tied to '
               'the code by cutting generated dumps at every offset under a counting reader with budget and watchdog.'
-              " TRANSLATION TIE: the source text of parse / parse_v2 / parse_v3 (to the end of its chunk loop) / seek_until / set_thread_map is translated on every run (tools/gen_pyir_rd.py, pure ast) into the Python-subset IR of Model/PyIRRd (statements over the model's reader: read, while/for/break/raise/yield, bytes slices and comparisons, construct parsers as primitives; big-step interpreter); source_is_expected_ir: the generated program is the one of Spec/PyIRRdExpected; parse_is_interpreted_source: for EVERY byte string and prior state the model's parse IS that program run by the interpreter (+ the hand-modelled tail of parse_v3), with the same read calls; hence interpreted_source_never_hangs, interpreted_source_truncation_prefix, seek_until_ir_eof.")
+              " TRANSLATION TIE: the source text of parse / parse_v2 / parse_v3 (whole, incl. the additional-data blocks and the log loop) / seek_until / set_thread_map is translated on every run (tools/gen_pyir_rd.py, pure ast) into the Python-subset IR of Model/PyIRRd (statements over the model's reader: read, while/for/break/raise/yield, bytes slices and comparisons, construct parsers as primitives; big-step interpreter); source_is_expected_ir: the generated program is the one of Spec/PyIRRdExpected; parse_is_interpreted_source: for EVERY byte string and prior state the model's parse IS that program run by the interpreter, with the same read calls; hence interpreted_source_never_hangs, interpreted_source_truncation_prefix, seek_until_ir_eof.")
 LEVEL_NOTE = ('Termination itself is a runtime fact: the proof is about the model (total functions + never_hangs), the code is '
               'tied by the differential runs incl. read counters. The bound is on calls + bytes returned, not bytes requested. '
               'Trace/callstack stages are covered generically (any feed function); plist decoding is opaque.'
-              ' The hand model of the readers is no longer trusted by itself: it is proved equal to the interpreted source (trusted instead: translator tools/gen_pyir_rd.py and interpreter Model/PyIRRd, both tested against CPython by the sections *-ir; the construct parsers as primitives; the tail of parse_v3).')
+              ' The hand model of the readers is no longer trusted by itself: it is proved equal to the interpreted source (trusted instead: translator tools/gen_pyir_rd.py and interpreter Model/PyIRRd, both tested against CPython by the sections *-ir; the construct parsers, plistlib.loads and OsLogEvent.from_raw_log_event as primitives / parameters).')
 TECHNIQUE = 'Lean 4 proof (simulation under truncation, potential-function cost bound) + exhaustive-offset differential correspondence + translation validation (source text -> IR, proved equal to the model)'
